@@ -326,6 +326,7 @@ type Report struct {
 func newReport(prop string, p *Prog) *Report {
 	pathsProg = p
 	helperEdgeMemo = map[string]bool{}
+	helperRetractsMemo = map[*ssa.Function]int{}
 	mergedGuardCache = map[*ssa.BasicBlock][]Guard{}
 	resultIntervalMemo = map[string]*Itv{}
 	return &Report{Prop: prop, P: p, Analysed: map[string]bool{}, keys: map[string]int{}}
